@@ -201,6 +201,19 @@ def scenario_for(seed, index, tier):
         for l in listeners:
             l['fw'] = []
             l['ofw'] = []
+    rd = make_rng('deco', ID, seed, index)
+    plain = [j for j, l in enumerate(listeners)
+             if 'cb' not in l and 'disc' not in l and l.get('id') != 90 and
+             not any(m.get('cb') == l['id'] for m in listeners)]
+    if plain and rd.random() < 0.25:
+        # two functions registered through ONE decorator object
+        # (d = connection.listener(types, early=..., outgoing=...);
+        # d(f); d(g)): both get the options the decorator was made with
+        j = rd.choice(plain)
+        twin = copy.deepcopy(listeners[j])
+        twin['id'] = 1 + max(l['id'] for l in listeners)
+        listeners[j]['deco'] = twin['deco'] = listeners[j]['id']
+        listeners.insert(j + 1, twin)
     finish(sc)
     return sc
 
@@ -588,10 +601,18 @@ def execute(scenario, tape):
                     raise IgnorePacket
             return cb_
         cbs = {}
+        decos = {}
         for l in scenario['listeners']:
             if l.get('cb', l['id']) == l['id']:
                 cbs[l['id']] = make(l)
             # (an alias registers the very same callable once more)
+            if 'deco' in l:
+                if l['deco'] not in decos:
+                    decos[l['deco']] = conn.listener(
+                        *[T[t] for t in l['types']], early=l['early'],
+                        outgoing=l['outgoing'])
+                decos[l['deco']](cbs[l['id']])
+                continue
             conn.register_packet_listener(
                 cbs[l.get('cb', l['id'])], *[T[t] for t in l['types']],
                 early=l['early'], outgoing=l['outgoing'])
